@@ -2,6 +2,8 @@ package main
 
 func controlsC10() []Control {
 	return []Control{
+		{Name: "pass no longer tested against the allowed actions by the wrapper (the library ignores it)", Expect: "R10", Mutate: replaceIn("(*game).Pass", "if !g.gs.HasAction(playerIdx, \"pass\") {", "if false {", 0)},
+		{Name: "ante pay no longer falls through to the ready-group signal", Expect: "R5", Mutate: replaceIn("(*game).Pay", "\tcase pokerface.GameEvent_AnteRequested:\n\t\tfallthrough\n", "\tcase pokerface.GameEvent_AnteRequested:\n", 0)},
 		{Name: "PlayerCall invokes Game.Check", Expect: "R4", Mutate: replaceIn("(*tableEngine).PlayerCall", "te.game.Call(gamePlayerIdx)", "te.game.Check(gamePlayerIdx)", 0)},
 		{Name: "statistics bump outside the success branch in PlayerCheck", Expect: "R3", Mutate: replaceIn("(*tableEngine).PlayerCheck", "\treturn err\n}", "\tte.table.State.PlayerStates[playerIdx].GameStatistics.ActionTimes++\n\treturn err\n}", 0)},
 		{Name: "PlayerFold skips validateGameMove", Expect: "R2", Mutate: replaceIn("(*tableEngine).PlayerFold", "te.validateGameMove(gamePlayerIdx)", "error(nil)", 0)},
